@@ -9,7 +9,7 @@ props = [json.loads(l) for l in open(os.path.join(VERIF, "properties.jsonl"))]
 checks, na = [], []
 for p in props:
     pid = p["id"]
-    if pid in registry.SPECS:
+    if pid in registry.SPECS and pid not in registry.IN_PROGRESS:
         s = registry.SPECS[pid]
         checks.append({
             "property_id": pid,
